@@ -86,6 +86,9 @@ MoveAssign(o) == /\ TwoObjects /\ st[o] # "none" /\ Live(Other(o))
                  /\ st' = [st EXCEPT ![o] = "live", ![Other(o)] = "moved"]
                  /\ limbo' = [limbo EXCEPT ![Other(o)] = Range(buf[o]) \cup limbo[o], ![o] = {}]
                  /\ ret' = 0
+\* a = a and a = std::move(a): the object keeps its contents and its capacity
+SelfCopyAssign(o) == Live(o) /\ ret' = 0 /\ UNCHANGED <<buf, cap, st, limbo>>
+SelfMoveAssign(o) == Live(o) /\ ret' = 0 /\ UNCHANGED <<buf, cap, st, limbo>>
 Destroy(o) == /\ TwoObjects /\ o = "B" /\ st[o] # "none"
               /\ buf' = [buf EXCEPT ![o] = <<>>] /\ cap' = [cap EXCEPT ![o] = 0]
               /\ st' = [st EXCEPT ![o] = "none"] /\ limbo' = [limbo EXCEPT ![o] = {}]
@@ -94,6 +97,7 @@ Destroy(o) == /\ TwoObjects /\ o = "B" /\ st[o] # "none"
 PNext == \E o \in Objs : \/ PushBack(o) \/ PushFront(o) \/ PopBack(o) \/ PopFront(o)
                          \/ \E n \in 1..MaxCap : Resize(o, n)
                          \/ CopyConstruct(o) \/ CopyAssign(o) \/ MoveConstruct(o) \/ MoveAssign(o) \/ Destroy(o)
+                         \/ SelfCopyAssign(o) \/ SelfMoveAssign(o)
 PSpec == PInit /\ [][PNext]_pvars
 
 \* C04/C09 on P: no value twice in one object; nothing lost or invented by an operation
